@@ -458,8 +458,8 @@ func TestVerifC37(t *testing.T) {
 	// invalid patterns
 	ninv := kit.Scale(3000, 9000)
 	for idx := 0; idx < ninv; idx++ {
-		if only >= 0 {
-			break
+		if only >= 0 && only != 1000000+idx {
+			continue
 		}
 		r := kit.CaseRand("c37-invalid", idx)
 		g := &pgen{r: r, hostile: idx%2 == 0}
@@ -467,7 +467,14 @@ func TestVerifC37(t *testing.T) {
 		c.Eval()
 		m.parseAndCount(1000000+idx, pat)
 	}
-	limitCases(m)
+	if only < 0 || only >= 2000000 {
+		limitCases(m)
+	}
+	if only >= 0 {
+		// replay of a single case: no floors
+		c.MinDistinct(0)
+		return
+	}
 
 	c.Floor("patterns_accepted", int64(ncases/2))
 	c.Floor("core_language_patterns", int64(ncases/5))
